@@ -212,14 +212,20 @@ fn version_gate(ctx: &Ctx, v: (u8, u8, u8), counting: bool) -> Result<(), Fail> 
 		list[0].1 = pj.replace("\"version\":[2,0,0]", &format!("\"version\":[{},{},{}]", v.0, v.1, v.2)).into_bytes();
 		let arch = rebuild(&list);
 		let d = json!({"format_version": [v.0, v.1, v.2]});
-		match (rt::slpp_read(&arch, false), v < (2, 0, 0)) {
+		// pinned by the property: below the minimum -> rejected; the version the writer itself produces -> accepted.
+		// Versions above the current one are the reader's choice (accept, or refuse as "too new"); if accepted, the
+		// game must be the same.
+		let below = v < (2, 0, 0);
+		let current = v == (2, 0, 0);
+		match (rt::slpp_read(&arch, false), below) {
 			(Out::Err(_), true) => Ok(()),
 			(Out::Ok(_), true) => Err(Fail::new("op=archive version_gate accepted", format!("format version {:?} below the minimum was accepted", v)).with_detail(d)),
 			(Out::Ok(g), false) => {
 				let g0 = rt::slpp_read(orig, false).expect_ok("peppi::read")?;
 				diff_games(&g, &g0, &CmpOpts::default()).map_err(|e| Fail::new("op=archive version_gate game", e).with_detail(d))
 			}
-			(Out::Err(e), false) => Err(Fail::new("op=archive version_gate rejected", format!("format version {:?} rejected: {}", v, e)).with_detail(d)),
+			(Out::Err(e), false) if current => Err(Fail::new("op=archive version_gate rejected", format!("the writer's own format version {:?} was rejected: {}", v, e)).with_detail(d)),
+			(Out::Err(_), false) => Ok(()),
 			(Out::Panic(p), _) => Err(Fail::new("op=archive version_gate panic", p).with_detail(d)),
 		}
 	})
@@ -263,7 +269,7 @@ fn cfg(ctx: &Ctx) -> crate::gen::GenCfg {
 }
 
 pub fn run(ctx: &Ctx) -> usize {
-	ctx.set_rule("generated replays x compression x {hash requested or not}; archives walked with the engine's own tar reader; oracle: entry list is exactly peppi.json, metadata.json, start.json, start.raw, [end.json, end.raw], [gecko_codes.raw], frames.arrow in that order, bytes 0..9 are `peppi.json`, header checksums valid, GNU magic, regular-file entries, two-zero-block trailer; every *.json parses (engine's JSON reader) and is byte-equal to serde_json's rendering of what peppi::read reconstructs; *.raw equal the raw blocks; two independent writes are identical; 1-4 extra entries with names the reader does not dispatch on, spliced before any known entry with the engine's tar writer, do not change the read game; peppi.json rewritten with a boundary set + random format-version triples: rejected iff < 2.0.0; non-trivial = longest entry list (end + gecko + frames) or extra entries present; distinct by xxh3(file, compression, extras)");
+	ctx.set_rule("generated replays x compression x {hash requested or not}; archives walked with the engine's own tar reader; oracle: entry list is exactly peppi.json, metadata.json, start.json, start.raw, [end.json, end.raw], [gecko_codes.raw], frames.arrow in that order, bytes 0..9 are `peppi.json`, header checksums valid, GNU magic, regular-file entries, two-zero-block trailer; every *.json parses (engine's JSON reader) and is byte-equal to serde_json's rendering of what peppi::read reconstructs; *.raw equal the raw blocks; two independent writes are identical; 1-4 extra entries with names the reader does not dispatch on, spliced before any known entry with the engine's tar writer, do not change the read game; peppi.json rewritten with a boundary set + random format-version triples: below 2.0.0 must be rejected, 2.0.0 (the writer's own) must be accepted, above it the reader may accept (then the game must be identical) or refuse; non-trivial = longest entry list (end + gecko + frames) or extra entries present; distinct by xxh3(file, compression, extras)");
 	ctx.assume("frames.arrow is present (and last) also for zero-frame games (D3's repair); the property only requires it when the game has frames");
 	let mut violations = 0;
 	if run_enum(ctx, "forced", super::c02::FORCED.len() * 6 * ctx.n(2, 16), |i| json!({ "i": i }), |i| check(ctx, &forced(i), "forced", true)).is_some() {
